@@ -695,6 +695,93 @@ def hook_edge_inputs(s):
     buy(s, "usr1", 1, 1)
 
 
+def R(op, prog):
+    """the operation with a re-entry program: what the hostile contract does when the marketplace hands it a transfer"""
+    op = dict(op)
+    op["reentry"] = prog
+    return op
+
+
+def reentrant_withdrawal(s):
+    """Re-entrancy (model/Reentry.v): the hostile contract holds a bucket of coins, its own "token" and an honest NFT.
+    Withdrawing it makes the marketplace send, in this order, the coins, the hostile token (the contract's handler
+    runs and calls the marketplace again while the NFT is still in flight) and the NFT."""
+    H = HOSTILE
+    s.do({"t": "bank_send", "user": "usr0", "to": H, "coins": [["ujunox", 500]]}, "valid")
+    s.do({"t": "nft_transfer", "user": "usr0", "coll": COLL1, "token_id": "1", "to": H}, "valid")
+    s.do(E(H, {"k": "create_bucket", "id": 1}, [["ujunox", 100]]), "hostile")
+    s.do(E(H, {"k": "receive", "sender": H, "amount": 5, "inner": {"k": "add_to_bucket_cw20", "id": 1}}), "hostile")
+    nft_send(s, H, COLL1, "1", {"k": "add_to_bucket_cw721", "id": 1})
+    bucket(s, "usr1", 2, [["uosmo", 7]])
+    listing(s, "usr0", 3, [["uatom", 5]], G(n=[["ujunox", 450]]))
+    prog = [E(H, {"k": "remove_bucket", "id": 1}),                                   # again: the record is gone already
+            E(H, {"k": "create_bucket", "id": 4}, [["ujunox", 450]]),                 # paid with coins that arrived a moment ago
+            E(H, {"k": "buy", "lid": 3, "bid": 4}),                                   # a whole purchase inside the withdrawal
+            E(H, {"k": "receive", "sender": "usr1", "amount": 1, "inner": {"k": "add_to_bucket_cw20", "id": 2}}),   # forged top-up (F1)
+            E(H, {"k": "withdraw_purchased", "id": 3}),
+            E(H, {"k": "create_bucket", "id": 5}, [["ujunox", 10 ** 9]])]             # more than it has: refused, swallowed
+    # the NFT transfer (message 2) fails after the re-entrant calls have run: everything is undone, theirs included
+    s.do(R(E(H, {"k": "remove_bucket", "id": 1}, fail=2), prog), "fault")
+    # the hostile transfer itself fails: the program never runs
+    s.do({"t": "hostile_fail", "on": True}, "valid")
+    s.do(R(E(H, {"k": "remove_bucket", "id": 1}), prog), "hostile")
+    s.do({"t": "hostile_fail", "on": False}, "valid")
+    s.do(R(E(H, {"k": "remove_bucket", "id": 1}), prog), "hostile")
+    s.do(R(E(H, {"k": "remove_bucket", "id": 1}), prog), "hostile")                  # refused: no program runs either
+    s.do(E("usr0", {"k": "remove_bucket", "id": 4}), "valid")
+
+
+def reentrant_royalty(s):
+    """Re-entrancy during a purchase between two honest users: the buyer's bucket carries a hostile "token" (forged
+    top-up, F1) which the ask names, the listing holds an NFT of a registered collection, so the royalty on the hostile
+    token is a transfer request to the hostile contract in the middle of the purchase."""
+    H = HOSTILE
+    s.do({"t": "bank_send", "user": "usr2", "to": H, "coins": [["ujunox", 300]]}, "valid")
+    reg(s, COLL1, 100, "usr5")
+    ask = G(n=[["ujunox", 10000]], c=[[H, 1000]])
+    nft_send(s, "usr0", COLL1, "1", {"k": "create_listing_cw721", "id": 1, "ask": ask, "wl": None})
+    s.do(E("usr0", {"k": "finalize", "id": 1, "secs": 600}), "valid")
+    bucket(s, "usr1", 1, [["ujunox", 10000]])
+    s.do(E(H, {"k": "receive", "sender": "usr1", "amount": 1000, "inner": {"k": "add_to_bucket_cw20", "id": 1}}), "hostile")
+    bucket(s, "usr3", 2, [["uosmo", 7]])
+    prog = [E(H, {"k": "withdraw_purchased", "id": 1}),                               # not the buyer: refused
+            E(H, {"k": "receive", "sender": "usr1", "amount": 1, "inner": {"k": "add_to_listing_cw20", "id": 1}}),  # sold: refused
+            E(H, {"k": "receive", "sender": "usr0", "amount": 3, "inner": {"k": "add_to_bucket_cw20", "id": 1}}),   # the seller's proceeds (F1)
+            E(H, {"k": "create_bucket", "id": 7}, [["ujunox", 300]]),
+            E(H, {"k": "fee_cycle"}),
+            E(H, {"k": "receive_nft", "sender": "usr3", "token_id": "9", "inner": {"k": "add_to_bucket_cw721", "id": 2}})]
+    s.do(R(E("usr1", {"k": "buy", "lid": 1, "bid": 1}, fail=0), prog), "fault")       # the royalty in coins fails: no re-entry at all
+    s.do(R(E("usr1", {"k": "buy", "lid": 1, "bid": 1}), prog), "valid")
+    # the seller's proceeds: coins, hostile token (re-entry), then the pool fee - which fails: the re-entrant withdrawal is undone too
+    s.do(R(E("usr0", {"k": "remove_bucket", "id": 1}, fail=2), [E(H, {"k": "remove_bucket", "id": 7})]), "fault")
+    s.do(R(E("usr0", {"k": "remove_bucket", "id": 1}), [E(H, {"k": "remove_bucket", "id": 7})]), "valid")
+    s.do(E(H, {"k": "remove_bucket", "id": 7}), "hostile")                            # gone
+    s.do(E("usr1", {"k": "withdraw_purchased", "id": 1}), "valid")
+
+
+def reentrant_in_flight(s):
+    """Re-entrancy: what the re-entrant call can and cannot use depends on which messages have been delivered.  The hostile
+    contract's bucket holds its own token first and an honest CW20 second, so during the re-entry the honest tokens are
+    still in flight: sending them back at that moment fails; after the transaction it works."""
+    H = HOSTILE
+    s.do({"t": "cw20_transfer", "user": "usr0", "token": CW20A, "to": H, "amount": 7}, "valid")
+    s.do({"t": "nft_transfer", "user": "usr0", "coll": COLL1, "token_id": "1", "to": H}, "valid")
+    s.do(E(H, {"k": "receive", "sender": H, "amount": 5, "inner": {"k": "create_bucket_cw20", "id": 1}}), "hostile")
+    cw20_send(s, H, CW20A, 7, {"k": "add_to_bucket_cw20", "id": 1})
+    nft_send(s, H, COLL1, "1", {"k": "add_to_bucket_cw721", "id": 1})
+    prog = [{"t": "cw20_send", "user": H, "token": CW20A, "amount": 7, "inner": {"k": "create_bucket_cw20", "id": 2}},      # not yet delivered
+            {"t": "nft_send", "user": H, "coll": COLL1, "token_id": "1", "inner": {"k": "create_bucket_cw721", "id": 3}},   # not yet delivered
+            E(H, {"k": "receive", "sender": H, "amount": 2, "inner": {"k": "create_bucket_cw20", "id": 4}})]                # its own junk: accepted
+    s.do(R(E(H, {"k": "remove_bucket", "id": 1}), prog), "hostile")
+    cw20_send(s, H, CW20A, 7, {"k": "create_bucket_cw20", "id": 2})                    # now it has them
+    # the other way round: an honest CW20 first, the hostile token second: the honest tokens have arrived when it re-enters
+    s.do(E(H, {"k": "receive", "sender": H, "amount": 1, "inner": {"k": "add_to_bucket_cw20", "id": 2}}), "hostile")
+    prog2 = [{"t": "cw20_send", "user": H, "token": CW20A, "amount": 7, "inner": {"k": "create_bucket_cw20", "id": 5}},
+             E(H, {"k": "remove_bucket", "id": 5}),
+             {"t": "cw20_send", "user": H, "token": CW20A, "amount": 3, "inner": {"k": "create_bucket_cw20", "id": 6}}]
+    s.do(R(E(H, {"k": "remove_bucket", "id": 2}), prog2), "hostile")
+
+
 def hostile_freeze(s):
     """F1 (known finding): a forged top-up freezes the victim's bucket."""
     ask = G(n=[["uosmo", 7]])
@@ -783,6 +870,9 @@ SCRIPTS = {
     "hostile_freeze": (world.default_cfg, hostile_freeze, ("no_drain",)),
     "hostile_recreate": (world.default_cfg, hostile_recreate, ()),
     "hook_edge_inputs": (world.default_cfg, hook_edge_inputs, ()),
+    "reentrant_withdrawal": (world.default_cfg, reentrant_withdrawal, ("reentrant", "no_drain")),
+    "reentrant_royalty": (world.default_cfg, reentrant_royalty, ("reentrant", "no_drain")),
+    "reentrant_in_flight": (world.default_cfg, reentrant_in_flight, ("reentrant", "no_drain")),
     "long_lived_listings": (world.default_cfg, long_lived_listings, ()),
     "big_amounts": (big_amounts_cfg, big_amounts, ()),
     "queries_pages": (queries_pages_cfg, queries_pages, ("all_pages",)),
